@@ -24,10 +24,10 @@ type lifeSpec struct {
 	OnReplay   func(s *Sim, os []Oracle)
 }
 
-var lifeActions = []string{"storeNew", "storeUpdate", "complete", "cancel", "terminate", "renew", "migrate", "claim", "advance", "storeHostile", "seed", "vstorage", "bankDrain", "resetNode", "debtCombo", "keepAlive", "permission", "storeStale"}
+var lifeActions = []string{"storeNew", "storeUpdate", "complete", "cancel", "terminate", "renew", "migrate", "claim", "advance", "storeHostile", "seed", "vstorage", "bankDrain", "resetNode", "debtCombo", "keepAlive", "permission", "storeStale", "migRotate"}
 
 // actions that are off unless a spec gives them a weight
-var lifeOptIn = map[string]bool{"storeHostile": true, "seed": true, "vstorage": true, "bankDrain": true, "resetNode": true, "debtCombo": true, "keepAlive": true, "permission": true, "storeStale": true}
+var lifeOptIn = map[string]bool{"storeHostile": true, "seed": true, "vstorage": true, "bankDrain": true, "resetNode": true, "debtCombo": true, "keepAlive": true, "permission": true, "storeStale": true, "migRotate": true}
 
 func (sp *lifeSpec) newSim(t TB) (*Sim, *LifeCfg, []Oracle) {
 	os := sp.Oracles()
@@ -56,7 +56,7 @@ func (sp *lifeSpec) property() func(*rapid.T) {
 				"storeNew": cfg.GenStoreNew, "storeUpdate": cfg.GenStoreUpdate, "complete": cfg.GenComplete,
 				"cancel": cfg.GenCancel, "terminate": cfg.GenTerminate, "renew": cfg.GenRenew,
 				"migrate": cfg.GenMigrate, "claim": cfg.GenClaim, "advance": cfg.GenAdvance,
-				"storeHostile": cfg.GenStoreHostile, "seed": cfg.GenSeed, "vstorage": cfg.GenVstorage, "bankDrain": cfg.GenBankDrain, "resetNode": cfg.GenResetNode, "debtCombo": cfg.GenDebtCombo, "keepAlive": cfg.GenKeepAlive, "permission": cfg.GenPermission, "storeStale": cfg.GenStoreStale,
+				"storeHostile": cfg.GenStoreHostile, "seed": cfg.GenSeed, "vstorage": cfg.GenVstorage, "bankDrain": cfg.GenBankDrain, "resetNode": cfg.GenResetNode, "debtCombo": cfg.GenDebtCombo, "keepAlive": cfg.GenKeepAlive, "permission": cfg.GenPermission, "storeStale": cfg.GenStoreStale, "migRotate": cfg.GenMigrationAcrossRotation,
 			}
 			var menu []string
 			for _, k := range lifeActions {
@@ -132,7 +132,7 @@ var specC13 = &lifeSpec{
 		rewrites := s.Labels["migrate+"] + s.Labels["terminate+"] + s.Labels["cancel+"] + s.Labels["renew+"] + s.Labels["rotated"] + s.Labels["storeForce+"]
 		return o.MaxOrders >= 2 && o.MaxShards >= 3 && rewrites > 0
 	},
-	Weights: map[string]int{"complete": 4, "advance": 3, "storeNew": 2},
+	Weights: map[string]int{"complete": 4, "advance": 3, "storeNew": 2, "migRotate": 1},
 }
 
 func init() { specC13.register() }
@@ -149,7 +149,7 @@ var specC14 = &lifeSpec{
 		dec := s.Labels["migrate+"] + s.Labels["terminate+"] + s.Labels["expired"]
 		return o.MaxHolding >= 2 && dec > 0
 	},
-	Weights: map[string]int{"complete": 4, "advance": 3, "storeNew": 2, "debtCombo": 1, "bankDrain": 1, "vstorage": 1},
+	Weights: map[string]int{"complete": 4, "advance": 3, "storeNew": 2, "debtCombo": 1, "bankDrain": 1, "vstorage": 1, "migRotate": 1},
 }
 
 func init() { specC14.register() }
@@ -197,7 +197,7 @@ var specC11 = &lifeSpec{
 	Prop: "C11", Test: "TestC11",
 	Oracles:    func() []Oracle { return []Oracle{NewC11()} },
 	Nontrivial: func(s *Sim, os []Oracle) bool { return os[0].(*C11Oracle).Reached > 0 },
-	Weights:    map[string]int{"complete": 5, "advance": 4, "storeNew": 2, "storeUpdate": 2, "renew": 3, "migrate": 2, "cancel": 1, "terminate": 1, "claim": 0},
+	Weights:    map[string]int{"complete": 5, "advance": 4, "storeNew": 2, "storeUpdate": 2, "renew": 3, "migrate": 2, "cancel": 1, "terminate": 1, "claim": 0, "migRotate": 1},
 	Drain:      true,
 	MaxSteps:   30,
 }
@@ -235,7 +235,7 @@ var specC07 = &lifeSpec{
 	Nontrivial: func(s *Sim, os []Oracle) bool {
 		return os[0].(*C07Oracle).Ended > 0 && (s.Labels["add_vstorage+"]+s.Labels["remove_vstorage+"]+s.Labels["renew+"]+s.Labels["claim+"] > 0)
 	},
-	Weights:  map[string]int{"complete": 5, "advance": 4, "storeNew": 2, "renew": 3, "migrate": 2, "vstorage": 3, "bankDrain": 2, "claim": 2, "terminate": 1, "debtCombo": 2},
+	Weights:  map[string]int{"complete": 5, "advance": 4, "storeNew": 2, "renew": 3, "migrate": 2, "vstorage": 3, "bankDrain": 2, "claim": 2, "terminate": 1, "debtCombo": 2, "migRotate": 1},
 	Drain:    true,
 	MaxSteps: 35,
 	Capacity: 300_000_000,
@@ -254,7 +254,7 @@ var specC04 = &lifeSpec{
 	Nontrivial: func(s *Sim, os []Oracle) bool {
 		return os[0].(*C04Oracle).Settled > 0 && s.Labels["claim+"] > 0
 	},
-	Weights:  map[string]int{"complete": 5, "advance": 4, "storeNew": 3, "storeUpdate": 2, "renew": 3, "migrate": 2, "claim": 2, "terminate": 2, "cancel": 1, "keepAlive": 1},
+	Weights:  map[string]int{"complete": 5, "advance": 4, "storeNew": 3, "storeUpdate": 2, "renew": 3, "migrate": 2, "claim": 2, "terminate": 2, "cancel": 1, "keepAlive": 1, "migRotate": 1},
 	Drain:    true,
 	MaxSteps: 35,
 	Finish: func(s *Sim, cfg *LifeCfg, os []Oracle) {
